@@ -34,6 +34,7 @@ from pvl.encoder import (  # noqa: E402,F401
 from pvl.exceptions import LexerError, ParseError, QuantityError  # noqa: E402,F401
 from pvl.lexer import lexer as real_lexer  # noqa: E402
 from pvl.token import Token  # noqa: E402,F401
+from pvl import pvl_validate, pvl_translate  # noqa: E402,F401
 
 
 class Budget(BaseException):
